@@ -57,6 +57,16 @@ theorem hint_bits_are_distinct :
 
 open CdnsVerif.Spec.Cbor CdnsVerif.Model CdnsVerif.Model.Decoder CdnsVerif.Model.Schema CdnsVerif.Model.Structs CdnsVerif.Model.File
 
+/-- **…and so are the block itself and its tables map**: a block holding one of everything, built through the record interface and
+    written by `CdnsBlock::write`, has exactly the members of the `block` schema and – inside member 2 – of the `blockTables` schema:
+    same keys, same order, arrays of structs / strings / index lists where the schema says so; `CdnsBlockRead` insists on the block
+    preamble only. -/
+theorem block_level_schemas_match_source :
+    (sourceRows "Block").map (rowsCompat · (rowsOf block)) = some true ∧
+    (sourceRows "BlockTables").map (rowsCompat · (rowsOf blockTables)) = some true := by
+  repeat' apply And.intro
+  all_goals decide +kernel
+
 /-- **The block schemas are what the source does** (translator T3, regenerated on every run by running the working tree's own
     `write`/`read` functions of the twelve item and table-entry structs): keys, order, kind and width of every member as
     written, the width the reader keeps, and the members the reader insists on. -/
